@@ -172,7 +172,7 @@ def run_family(pid_tag, jobs, Mj, viol, undefined):
                 viol.append(Violation(key=f"{job['name']}[{job['pi']}]:lattice-sample-differs", detail=f"default.qubit {val} vs exact {exp} at a={a} for {job['name']}", replay={"job": job["name"]}))
     base = len(traces)
     neg = []
-    for k in range(0, base, max(1, base // 8)):
+    for k in range(0, base, max(1, base // 48)):
         if traces[k]["decl"]:
             neg.append(len(traces))
             traces.append({"f": traces[k]["f"], "decl": [], "job": -1, "obs": 0})
